@@ -13,7 +13,9 @@ def menu_fn(w):
 def main(tier, replay_payload=None):
     w_args = universe(tier, formats=False)
     long_args = dict(w_args, fake_cid="long")
-    parts = {"main": (w_args, menu_fn), "long-cid": (long_args, menu_fn)}
+    # identifiers that contain the metacharacters of string templates (URL-encoded DOIs do)
+    pct_args = dict(w_args, pids=["doi%3A10.5063%2FF1", "100%", "a%sb{0}"])
+    parts = {"main": (w_args, menu_fn), "long-cid": (long_args, menu_fn), "percent": (pct_args, menu_fn)}
     if replay_payload is not None:
         return make_multi_replayer(parts)(replay_payload)
     run = report.Run("C03", tier, technique="pathsym inductive step; z3 validity of binding immutability and frame")
@@ -22,6 +24,7 @@ def main(tier, replay_payload=None):
     collect(run, res, MINE, w_args, menu_fn)
     # the never-stored cid of the universe once more, now longer than any digest (200 characters)
     collect(run, step.explore_steps(long_args, menu_fn), MINE, long_args, menu_fn, part="long-cid")
+    collect(run, step.explore_steps(pct_args, menu_fn), MINE, pct_args, menu_fn, part="percent")
     # the same identifier in two stores of one process (different algorithms): in another process the binding made in
     # the second store is found again and still refuses a second object
     two_stores(run, "C03", ["bound-pid-accepted-again", "bound-pid-refused-with-another-error", "call-failed"])
